@@ -434,8 +434,23 @@ func (p *Parser) ParseMemberExpression(left ast.Expression) ast.Expression {
 		Computed: false,
 	}
 	p.NextToken()
+	if !p.atPropertyName() {
+		p.AddError(fmt.Sprintf("property name expected after '.', found %q", p.CurrentToken.Literal))
+		return nil
+	}
 	exp.Property = p.expressionParseFn(p, MEMBER)
 	return exp
+}
+
+// atPropertyName reports whether the current token can be the name in a dot access:
+// an identifier, a reserved word, or a token type registered by a plugin.
+func (p *Parser) atPropertyName() bool {
+	tok := p.CurrentToken
+	if tok.Type == token.IDENT || tok.Type >= token.DYNAMIC_TOKENS_START {
+		return true
+	}
+	keyword, ok := token.Keywords[tok.Literal]
+	return ok && keyword == tok.Type
 }
 
 func (p *Parser) ParseComputedMemberExpression(left ast.Expression) ast.Expression {
